@@ -57,6 +57,23 @@ for d in sorted(glob.glob(os.path.join(V, "seeded", "C*-*"))):
     mm = re.search(r"['\"](D\w+|ANALYSIS-BROKEN)[ :]", rep)
     out.append("| %s | %s | %s | %s |" % (sid, (m.get("summary") or "")[:260].replace("|", "/").replace("\n", " "), r.get("verdict", "not run (property not applicable)" if sid.startswith("C06") else "not run"), mm.group(1) if mm else ""))
 out.append("")
+# neutral refactorings
+nres_p = os.path.join(V, "neutral", "RESULTS.json")
+if os.path.exists(nres_p):
+    nres = json.load(open(nres_p))
+    out.append("Behaviour-preserving refactorings (written by independent sub-agents, each verified by them to build and pass the suite; stored under `neutral/`). Every check whose anchor files a refactoring touches is run on it; the required answer is silence (exit 0):\n")
+    out.append("| refactoring | what was rewritten | checks run | result |")
+    out.append("|---|---|---|---|")
+    for nid in sorted(nres):
+        try:
+            m = json.load(open(os.path.join(V, "neutral", nid, "meta.json")))
+        except Exception:
+            m = {}
+        r = nres[nid]
+        bad = {k: v for k, v in r.items() if v != "SILENT"}
+        out.append("| %s | %s | %s | %s |" % (nid, (m.get("summary") or "")[:220].replace("|", "/").replace("\n", " "), " ".join(sorted(r)), "silent" if not bad else "; ".join("%s: %s" % (k, v[:80]) for k, v in bad.items())))
+    out.append("")
+
 out.append("Witness mutants (my own, one or more per rule; applied by the thorough tier to a scratch copy, each must be refuted naming the construct):\n")
 out.append("| property | witnesses |")
 out.append("|---|---|")
